@@ -54,8 +54,28 @@ class BaseBoom(BaseException):
         self.code = code
 
 
+class FalsyLenBoom(Boom):
+    """An exception whose truth value is False: a 'collection of problems' that happens to be empty (F47)."""
+    def __len__(self):
+        return 0
+
+
+class FalsyBoolBoom(Boom):
+    def __bool__(self):
+        return False
+
+
+E_FALSY, E_FALSY_BOOL = 4, 5       # Portal.e_falsy = 4; 5 is the __bool__ flavour (the model treats every code alike)
+
+
 def make_exc(code: int) -> BaseException:
-    return BaseBoom(code) if code >= 100 else Boom(code)
+    if code >= 100:
+        return BaseBoom(code)
+    if code == E_FALSY:
+        return FalsyLenBoom(code)
+    if code == E_FALSY_BOOL:
+        return FalsyBoolBoom(code)
+    return Boom(code)
 
 
 def exc_code(e: BaseException) -> int:
@@ -895,6 +915,10 @@ class PortalRun:
             if fut.exception(0) is not rec.final[1]:
                 self.mon.append(f"call {rec.k} raised {rec.final[1]!r} but its future holds {cell_obs(fut)}")
             self.flags.add("answer_exception")
+            if not rec.final[1]:
+                self.flags.add("answer_falsy_exception")
+                if rec.kind == KSTART and rec.started_val is None:
+                    self.flags.add("start_task_falsy_exception_before_started")
         else:
             self.mon.append(f"call {rec.k} ended with a cancellation but its future holds {cell_obs(fut)}")
         if rec.kind == KSTART and rec.status_fut is not None:
@@ -988,7 +1012,9 @@ class PortalRun:
                     if rec.started_val is not None:
                         self.mon.append(f"start_task of call {rec.k} raised {e!r} although started({rec.started_val}) was called")
                     elif rec.final and rec.final[0] == "raise" and e is not rec.final[1] and not rec.fcancel_true:
-                        self.mon.append(f"start_task of call {rec.k} raised {e!r} instead of the task's exception")
+                        self.mon.append(f"start_task of call {rec.k} raised {e!r} instead of the task's exception "
+                                        f"{rec.final[1]!r}" + (" (an exception whose truth value is False)"
+                                                               if not rec.final[1] else ""))
             elif rec.caller is not None and rec.caller[0] == "exc" and not isinstance(rec.caller[1], RuntimeError):
                 self.mon.append(f"refused call {rec.k} got {rec.caller[1]!r} instead of RuntimeError")
         # the exit of the portal's context may only surface what the callables (BaseException) or the body raised
@@ -1070,7 +1096,7 @@ def random_case(rng: random.Random, nsteps: int, prefix: list[int] | None = None
                 if fin == F_RETURN:
                     d = val
                 elif fin == F_RAISE:
-                    d = rng.choice([1, 2, 3, 3, 100])
+                    d = rng.choice([1, 2, 3, E_FALSY, E_FALSY_BOOL, 100])
                 elif fin == F_CANCEL_OWN and rec.kind != KSYNC and rec.execs:
                     d = rng.choice([OWN_RAISE, OWN_AWAIT_CANCELLED, OWN_NATIVE])
                 r.do(STEP, k, wk, sv, fin, d)
@@ -1198,6 +1224,7 @@ class E2ECall:
         self.idx, self.api, self.is_coro, self.gated, self.fail = idx, api, is_coro, gated, fail
         self.started, self.cancel, self.late = started, cancel, late
         self.value = 1000 + idx
+        self.fail_code = 1            # which exception a failing callable raises (E_FALSY / E_FALSY_BOOL: falsy ones)
         self.own_cancel = None        # None | 'raise' | 'await' | 'native': the callable's own outcome is a cancellation
         self.gate = threading.Event()
         self.issued = threading.Event()
@@ -1227,7 +1254,7 @@ def e2e_make_fn(c: E2ECall):
                 c.exec_threads.append(get_ident())
             try:
                 if c.fail:
-                    exc = Boom(c.idx)
+                    exc = make_exc(c.fail_code)
                     c.outcome = ("raise", exc)
                     raise exc
                 c.outcome = ("ret", c.value)
@@ -1258,7 +1285,7 @@ def e2e_make_fn(c: E2ECall):
                 asyncio.get_running_loop().call_later(0.002, asyncio.current_task().cancel)
                 await asyncio.sleep(30)
             if c.fail:
-                exc = Boom(c.idx)
+                exc = make_exc(c.fail_code)
                 c.outcome = ("raise", exc)
                 raise exc
             c.outcome = ("ret", c.value)
@@ -1287,6 +1314,7 @@ def e2e_scenario(rng: random.Random, backend_opts: dict, label: str):
         started = (2000 + i) if (api == "start" and (gated or rng.random() < 0.8)) else None
         cancel = (api == "soon" or (api == "start" and started is not None)) and rng.random() < 0.4
         calls.append(E2ECall(i, api, is_coro, gated, fail, started, cancel, False))
+        calls[-1].fail_code = rng.choice([1, 2, E_FALSY, E_FALSY_BOOL])
         if is_coro and not cancel and rng.random() < 0.2:
             calls[-1].own_cancel = rng.choice(["raise", "await", "native"])
     nlate = rng.choice([0, 1, 2])
@@ -1350,7 +1378,10 @@ def e2e_scenario(rng: random.Random, backend_opts: dict, label: str):
         for c in mine:
             if c.fut is not None and c.caller is None:
                 try:
-                    c.caller = ("ok", c.fut.result(timeout=E2E_WAIT))
+                    # Future.exception(): CPython's Future.result() decides by the exception's truth value, which is
+                    # not AnyIO's business for a future it merely returns
+                    e = c.fut.exception(timeout=E2E_WAIT)
+                    c.caller = ("exc", e) if e is not None else ("ok", c.fut.result(timeout=0))
                 except TimeoutError:
                     c.caller = ("hang",)
                 except BaseException as e:  # noqa: BLE001
@@ -1480,8 +1511,17 @@ def e2e_scenario(rng: random.Random, backend_opts: dict, label: str):
                 mon.append(f"{who}: returned {c.value} but caller got {c.caller!r}")
         elif kind == "raise":
             flags.add("exception")
-            if not (tag == "exc" and c.caller[1] is c.outcome[1]):
-                mon.append(f"{who}: raised {c.outcome[1]!r} but caller got {c.caller!r}")
+            falsy = not c.outcome[1]
+            if falsy:
+                flags.add("falsy_exception")
+            note = " (an exception whose truth value is False)" if falsy else ""
+            if tag == "ok" and c.api == "call":
+                mon.append(f"{who}: call returned {c.caller[1]!r} although the callable raised {c.outcome[1]!r}{note}")
+            elif c.api == "start" and c.started is None and tag == "exc" and isinstance(c.caller[1], RuntimeError) \
+                    and c.caller[1] is not c.outcome[1]:
+                mon.append(f"{who}: start_task raised {c.caller[1]!r} instead of the task's exception {c.outcome[1]!r}{note}")
+            elif not (tag == "exc" and c.caller[1] is c.outcome[1]):
+                mon.append(f"{who}: raised {c.outcome[1]!r}{note} but caller got {c.caller!r}")
         if c.api == "start" and c.fut is not None and c.started is not None and c.start_ret != c.started:
             mon.append(f"{who}: started({c.started}) but start_task returned {c.start_ret!r}")
         if c.api == "start" and c.started is not None:
@@ -1508,7 +1548,7 @@ def run_e2e(tier: str, rng: random.Random):
         import uvloop  # noqa: F401
     except Exception:  # noqa: BLE001
         backends = backends[:1]
-    directed = {"caller_kinds": e2e_caller_kinds}
+    directed = {"caller_kinds": e2e_caller_kinds, "falsy_exceptions": e2e_falsy_exceptions}
     for f in sorted((core.VERIF / "corpus" / "C15").glob("e2e_*.json")):
         spec = json.loads(f.read_text())
         fn = directed.get(spec.get("e2e_scenario"))
@@ -1695,6 +1735,81 @@ def e2e_caller_kinds(backend_opts: dict, label: str):
     desc = {"label": label, "scenario": "caller kinds: plain / worker of the portal's loop / worker of another loop",
             "segments_observed": len(snapshot), "replay_fn": "e2e_caller_kinds"}
     return mon, desc, flags
+
+
+def e2e_falsy_exceptions(backend_opts: dict, label: str):
+    """F47, directed: callables raise an exception whose truth value is False (__len__() == 0 / __bool__() False) through
+    every entry point.  call(sync) / call(coroutine) must raise that very exception (not return None); the future of
+    start_task_soon must hold it; start_task must raise it when the task fails before started() (not the unrelated
+    RuntimeError) and return (future, value) with the future holding it when the task fails after started()."""
+    import anyio
+    from anyio.from_thread import start_blocking_portal
+
+    mon: list[str] = []
+    flags: set[str] = set()
+    with start_blocking_portal("asyncio", backend_opts) as portal:
+        for code, flavour in ((E_FALSY, "__len__() == 0"), (E_FALSY_BOOL, "__bool__() is False")):
+            exc = make_exc(code)
+
+            def sync_fail():
+                raise exc
+
+            async def coro_fail():
+                await anyio.sleep(0)
+                raise exc
+
+            async def start_fail_before(*, task_status):
+                await anyio.sleep(0)
+                raise exc
+
+            async def start_fail_after(*, task_status):
+                task_status.started(11)
+                await anyio.sleep(0)
+                raise exc
+
+            for what, fn in (("call(sync callable)", sync_fail), ("call(coroutine)", coro_fail)):
+                try:
+                    r = portal.call(fn)
+                    mon.append(f"{what} returned {r!r} although the callable raised {exc!r} (truth value False: {flavour})")
+                except BaseException as e:  # noqa: BLE001
+                    if e is not exc:
+                        mon.append(f"{what}: the callable raised {exc!r} but the caller got {e!r}")
+                    else:
+                        flags.add("falsy_call")
+            f = portal.start_task_soon(coro_fail)
+            try:
+                e = f.exception(E2E_WAIT)
+                if e is not exc:
+                    mon.append(f"start_task_soon: the callable raised {exc!r} but future.exception() is {e!r}")
+                else:
+                    flags.add("falsy_soon")
+            except BaseException as e:  # noqa: BLE001
+                mon.append(f"start_task_soon: future.exception() raised {e!r}")
+            try:
+                r = portal.start_task(start_fail_before)
+                mon.append(f"start_task returned {r!r} although the task raised {exc!r} before started()")
+            except BaseException as e:  # noqa: BLE001
+                if e is not exc:
+                    mon.append(f"start_task raised {e!r} instead of the task's exception {exc!r} (truth value False: {flavour}; "
+                               f"raised before started())")
+                else:
+                    flags.add("falsy_start_before")
+            try:
+                f, v = portal.start_task(start_fail_after)
+                e = f.exception(E2E_WAIT)
+                if v != 11 or e is not exc:
+                    mon.append(f"start_task: started(11) then raised {exc!r}, caller got value {v!r} and future.exception() {e!r}")
+                else:
+                    flags.add("falsy_start_after")
+            except BaseException as e:  # noqa: BLE001
+                mon.append(f"start_task: started(11) then raised {exc!r}, but start_task raised {e!r}")
+        try:
+            if portal.call(lambda: 42) != 42:
+                mon.append("probe call returned a wrong value")
+        except BaseException as e:  # noqa: BLE001
+            mon.append(f"after the failing calls the portal no longer answers: {e!r}")
+    return mon, {"label": label, "scenario": "F47: exceptions whose truth value is False through call / start_task_soon / "
+                                            "start_task (before and after started())", "replay_fn": "e2e_falsy_exceptions"}, flags
 
 
 def e2e_two_phase_stop(rng: random.Random, backend_opts: dict, label: str):
@@ -2249,12 +2364,12 @@ def check(tier: str) -> int:
         "samples": [{"ncalls": runs[i].ncalls, "ops": readable(runs[i].ops)[:25], "outs": runs[i].outs[:50]} for i in idx[:2]]
                    + [e2e[0][1]] if e2e else [],
     })
-    for need in sorted(interesting | {"loop_end", "cancelled_by_portal_reported", "own_cancel_raise", "own_cancel_awaited_future", "own_cancel_native_task_cancel",
+    for need in sorted(interesting | {"answer_falsy_exception", "start_task_falsy_exception_before_started", "loop_end", "cancelled_by_portal_reported", "own_cancel_raise", "own_cancel_awaited_future", "own_cancel_native_task_cancel",
                                       "call_accepted_after_own_cancel", "left", "answer_value", "answer_exception", "answer_cancelled", "stop_cancel_remaining",
                                       "future_cancel_before_first_step", "interrupt_swallowed", "land_after_stop_accepted"}):
         if not flags.get(need):
             rep.notes.append(f"generator self-check: predicate {need} never reached")
-    for need in ("kind_plain", "kind_own-worker", "kind_other-worker", "kind_other-worker-own", "cancelled_future_reported", "own_cancel_raise", "own_cancel_await", "own_cancel_native", "probe_before_stop", "two_phase_stop", "refused", "task_cancelled", "future_cancelled", "value", "exception", "started", "cancel_remaining",
+    for need in ("falsy_call", "falsy_soon", "falsy_start_before", "falsy_start_after", "falsy_exception", "kind_plain", "kind_own-worker", "kind_other-worker", "kind_other-worker-own", "cancelled_future_reported", "own_cancel_raise", "own_cancel_await", "own_cancel_native", "probe_before_stop", "two_phase_stop", "refused", "task_cancelled", "future_cancelled", "value", "exception", "started", "cancel_remaining",
                  "finished_after_stop_requested"):
         if not e2e_flags.get(need):
             rep.notes.append(f"e2e generator self-check: predicate {need} never reached")
